@@ -54,6 +54,16 @@ CLAIMED = {
    text="For all truth assignments of all chain shapes up to 3 arms (thorough 5), nested and with hostile unselected content, and for random chains nested up to 4 deep: build(full) must equal build(program with unselected and conditional lines blanked) and the reference image/messages; the LINE hook trace must contain every selected line and no line of an unselected branch.",
    note="Trusted base: refmodel/layout.rs conditional semantics and the IR printer (one line per primitive node). Unselected branches contain .error, clobbering definitions, duplicate labels, garbage, unterminated .macro, missing .include, other .device.",
    design="§6 C08"),
+ "C09": dict(
+   technique="metamorphic monitor: macro program vs IR-level hand expansion vs reference image (runtime execution of build_str)",
+   text="Random programs with 1-4 macro definitions (0-10 parameters; register, index, displacement and expression parameters; parameters inside larger expressions; .if on a parameter; nested calls; segment switches; mixed-case names) and 1-6 calls in any letter case, before or after the definition, must build to exactly what the hand-expanded program (expanded on the IR, arguments substituted as values) builds to and to the reference image; calls of undefined macros or with an omitted used argument must fail; fixed probes cover the argument shapes the statement names.",
+   note="Trusted base: refmodel/layout.rs::expand_macros + IR printer. A parameter used inside a larger expression is only called with atomic/parenthesised/function-call arguments; labels and messages inside bodies are not generated.",
+   design="§6 C09"),
+ "C10": dict(
+   technique="reference-resolution monitor + single-symbol mutation testing of generated programs (runtime execution; LOOKUP hook events as evidence)",
+   text="Valid programs defining and using labels (3 segments), .equ (chained, forward), .set (reassignment chains) and .def/.undef aliases in independently random letter case must build to the reference resolution; every program is mutated one symbol at a time — each referenced definition deleted, each label duplicated, each alias used after its .undef, undefined names in data/instruction/alias position (all must fail) — and every alias replaced by its register (identical image).",
+   note="Trusted base: refmodel/layout.rs binding rules. Re-.def of a live alias without .undef and name clashes across kinds are not generated (not specified).",
+   design="§6 C10"),
 }
 
 PENDING_REASON = "check not built yet in this round (work in progress; design in DESIGN.md §6)"
